@@ -26,5 +26,5 @@ Witness == ~(st.ph = "done" /\ st.res = "certified" /\ st.reg = -1 /\ st.prem[3]
 Emit == (EmitOn /\ st.ph = "done") =>
           PrintT(ToJson([gid |-> gid, live |-> [i \in 1..st.N |-> SetToSortSeq({j \in 0..3 : Succ(st.N, i - 1, j) \in st.out[i - 1]}, <)],
                          res |-> st.res, reg |-> st.reg, m |-> st.m, csize |-> Cardinality(st.C), lo |-> st.lo, hi |-> st.hi,
-                         prem |-> st.prem, nest |-> Len(st.est), last |-> st.est[Len(st.est)], arcless |-> (st.alive = {})]))
+                         prem |-> st.prem, nest |-> Len(st.est), last |-> st.est[Len(st.est)], est |-> st.est, arcless |-> (st.alive = {})]))
 =============================================================================
